@@ -50,6 +50,10 @@ CHECKS = {
          "Small valid store directories (journal, table files, GC output, archives, manifests) built by the real writers; every byte of one storage file flipped and every truncation point applied (exhaustive for small files), plus multi-byte and 4KiB-block damage; every read path of the real store is driven over stored and mask-adjacent addresses; a panic (also in helper goroutines, detected through a crash sentinel + process restart), a multi-GB allocation, or a chunk whose bytes do not hash to its address is a violation.",
          "A stored chunk reported absent is a probe. Misreads that the undamaged store produces too (16-byte journal prefix) are excluded here and decided under C01. 15 known findings (call sites) are listed in known_findings.txt; RLIMIT_AS 4 GB turns runaway allocations into detectable crashes.",
          "deterministic simulation: exhaustive single-byte at-rest corruption of real store files, all read paths, crash sentinel", "DESIGN.md §6.1 C10", "dsim-store"),
+ "C02": ("exploration",
+         "Seeded search over interleavings: 2-4 committer tasks and fresh-instance reader tasks run under the S1 scheduler either on one shared store object (parked before Root/Rebase/Put/Commit) or as separate store instances on one shared directory (parked at file-operation granularity inside manifest updates, real flock, fake clock for lock time-outs); the recorded history of linearizable reads and commits is checked with porcupine against a compare-and-swap register, and every root a fresh instance shows must have all chunks written before its commit readable.",
+         "Sampling of schedules; histories <= 80 operations; a commit error other than a lock time-out makes that run's register check inconclusive (counted). Interleavings inside one mutex-protected operation of a shared store object are not explored (DESIGN §10).",
+         "deterministic simulation: seeded S1 scheduler over real stores + porcupine linearizability check against a CAS register", "DESIGN.md §6.1 C02", "dsim-store"),
  "C03": ("fault_enumeration",
          "For each seeded write history executed on the real journaling store over the simulated OS, every op-log position x crash variant (unsynced tail lost / kept / cut at every record boundary and at sampled mid-record bytes, zero-filled, garbage, 4KiB hole; directory operations cut at their durable point) is materialised and re-opened by the real recovery code; the recovered root must be the last acknowledged or an in-flight one, its closure readable byte-for-byte, and the store must accept and persist a further commit. Plus at-rest single-bit damage of records proven acknowledged (must be reported as data loss, never silently truncated) and of the final record (must roll back silently). Enumeration is complete per history up to the stated sampling; histories are sampled.",
          "Trusts the persistence model stated in the evidence file (what a crash may do to unsynced data and directory operations) and that op-log positions are the only crash points; the file system's own behaviour is simulated, fsync is recorded not issued; built with go1.26.8 (repo tests use 1.26.2).",
